@@ -23,7 +23,9 @@ EXTENDS Naturals, FiniteSets, TLC
 
 CONSTANT Dev
 
-Classes == {"plain", "quote", "backslash", "braces", "lf", "cr", "comment_end", "comment_start", "inject", "nonascii"}
+\* "nonxid": characters that are alphanumeric for Unicode but not identifier characters (superscripts, circled digits,
+\* fractions), in front of everything else
+Classes == {"plain", "quote", "backslash", "braces", "lf", "cr", "comment_end", "comment_start", "inject", "nonascii", "nonxid"}
 \* lexical forms of an XSD integer (they only make sense where a numeral is expected: facet values): explicit plus sign,
 \* leading zeros, surrounding white space, minus sign.  All of them ARE numerals; not all of them are Rust literals.
 NumClasses == {"num_plus", "num_zeros", "num_space", "num_neg"}
@@ -39,6 +41,8 @@ SitesRepaired ==
     [id |-> "facet_value", src |-> "facet", ctx |-> "code", esc |-> "number"],
     [id |-> "doc_line", src |-> "doc", ctx |-> "doc_comment", esc |-> "lines"],
     [id |-> "ns_uri", src |-> "uri", ctx |-> "str", esc |-> "rust_str"],
+    \* the module name and the XML prefix made of the URI's last segment ("abbrev": up to three identifier characters)
+    [id |-> "ns_module", src |-> "uri", ctx |-> "ident", esc |-> "abbrev"],
     [id |-> "address", src |-> "address", ctx |-> "str", esc |-> "rust_str"],
     [id |-> "action_url", src |-> "action", ctx |-> "str", esc |-> "rust_str"],
     [id |-> "op_comment", src |-> "opname", ctx |-> "line_comment", esc |-> "one_line"] }
@@ -61,7 +65,7 @@ Safe(c, s) ==
     \* anything that is not a numeral must be kept out, and a numeral must arrive as a Rust literal of the same value:
     \* "number" = parsed and printed again; "number_checked" = parsed for validation, the schema's text copied
     [] s.ctx = "code" -> (s.esc = "number" \/ (s.esc = "number_checked" /\ c \in NumClasses \ {"num_plus"}))
-    [] s.ctx = "ident" -> (s.esc = "case")                             \* case conversion keeps identifier characters only
+    [] s.ctx = "ident" -> (s.esc \in {"case", "abbrev"})               \* both keep identifier characters only (D44, D45)
     [] OTHER -> FALSE
 
 \* C14 at design level
